@@ -56,9 +56,18 @@ def gen_case(rng, tier, i):
         if rng.random() < 0.7:
             dims.append(d)
     rng.shuffle(dims)
-    return {"layout": {"axes": layout.axes, "extra": layout.extra}, "have_dimcoord": have_dimcoord,
+    second = None
+    for a in layout.axes:
+        if a is not ax and rng.random() < 0.6:
+            d2 = next((d for d in dims if d in a["coords"].values()), None)
+            if d2 is not None:
+                f2 = next(p for p, d in a["coords"].items() if d == d2)
+                t2 = [q for q in a["coords"] if q != "center"] if f2 == "center" else ["center"]
+                second = {"axis": a["name"], "from": f2, "to": rng.choice(t2), "first": rng.random() < 0.5}
+    return {"layout": {"axes": layout.axes, "extra": layout.extra}, "have_dimcoord": have_dimcoord, "second": second,
             "extra_coords": extra_coords, "axis": ax["name"], "from": frm, "to": rng.choice(tos), "dims": dims,
-            "op": rng.choice(["diff", "interp", "min", "max", "cumsum"]), "keep": rng.random() < 0.5,
+            "op": "cumsum" if (second and rng.random() < 0.4) else rng.choice(["diff", "interp", "min", "max", "cumsum"]),
+            "keep": rng.random() < 0.5,
             "input": rng.choice(["ds_coords", "none", "altered"]), "boundary": rng.choice(["fill", "extend", "periodic"]),
             "seed": rng.randrange(1 << 30)}
 
@@ -99,18 +108,27 @@ def eval_case(case, drv):
         da = da.assign_coords(stale=(dims[0], np.arange(sizes[dims[0]]) * 1.0))
     ax = layout.axis(case["axis"])
     old, new = ax["coords"][case["from"]], ax["coords"][case["to"]]
+    moves = [(old, new)]
+    axis_arg, to_arg = case["axis"], case["to"]
+    sec = case.get("second")
+    if sec:
+        a2 = layout.axis(sec["axis"])
+        moves.append((a2["coords"][sec["from"]], a2["coords"][sec["to"]]))
+        axis_arg = [sec["axis"], case["axis"]] if sec["first"] else [case["axis"], sec["axis"]]
+        to_arg = {case["axis"]: case["to"], sec["axis"]: sec["to"]}
     with warnings.catch_warnings():
         warnings.simplefilter("ignore")
         try:
-            res = getattr(grid, case["op"])(da, case["axis"], to=case["to"], keep_coords=case["keep"])
-            ref = getattr(grid, case["op"])(xr.DataArray(vals, dims=dims, name="phi"), case["axis"], to=case["to"],
+            res = getattr(grid, case["op"])(da, axis_arg, to=to_arg, keep_coords=case["keep"])
+            ref = getattr(grid, case["op"])(xr.DataArray(vals, dims=dims, name="phi"), axis_arg, to=to_arg,
                                             keep_coords=case["keep"])
         except Exception as e:  # noqa: BLE001
             return {"corr_ok": False, "prop_ok": False, "branch": "refused",
                     "detail": {"impl": exc_kind(e) + ": " + str(e)[:160]}}
     detail = {}
     prop_ok = True
-    res_dims = [new if d == old else d for d in dims]
+    rename = dict(moves)
+    res_dims = [rename.get(d, d) for d in dims]
     # model: names of coordinates on the result
     dsc = [(str(k), [str(x) for x in v.dims]) for k, v in ds.coords.items()]
     line = (f"c19 {len(dsc)} " + " ".join(f"{n} {len(dd)} {' '.join(dd)}".strip() for n, dd in dsc)
@@ -126,19 +144,31 @@ def eval_case(case, drv):
     if list(res.dims) != res_dims and set(res.dims) != set(res_dims):
         prop_ok = False
         detail["dims"] = [list(res.dims), res_dims]
-    if new in ds.coords:
-        if new not in res.coords or not np.array_equal(res[new].values, ds[new].values) or res[new].attrs != ds[new].attrs:
+    for _, nw in moves:
+        if nw in ds.coords:
+            if nw not in res.coords or not np.array_equal(res[nw].values, ds[nw].values) or res[nw].attrs != ds[nw].attrs:
+                prop_ok = False
+                detail["new_dim_coord"] = {"dim": nw, "have": nw in res.coords}
+        elif nw in res.coords:
+            # the dataset has no coordinate for the new position: the result must not invent one
             prop_ok = False
-            detail["new_dim_coord"] = {"have": new in res.coords}
+            detail["invented_dim_coord"] = {"dim": nw}
+    olds = [o for o, _ in moves]
     for d in dims:
-        if d != old and d in ds.coords:
+        if d not in olds and d in ds.coords:
             if d not in res.coords or not np.array_equal(res[d].values, ds[d].values):
                 prop_ok = False
                 detail["untouched"] = d
     for k, v in res.coords.items():
-        if old in v.dims:
+        if any(o in v.dims for o in olds):
             prop_ok = False
             detail["stale"] = str(k)
+    for k, v in res.coords.items():
+        # a coordinate that is the dataset's must carry the dataset's values (not relabelled leftovers)
+        if k in ds.coords and k not in res_dims and (set(v.dims) != set(ds[k].dims) or not np.array_equal(
+                v.transpose(*ds[k].dims).values, ds[k].values)):
+            prop_ok = False
+            detail["relabelled"] = str(k)
     if res.name != "phi":
         prop_ok = False
         detail["name"] = res.name
@@ -152,7 +182,7 @@ def eval_case(case, drv):
     if not np.array_equal(res.transpose(*ref.dims).values, ref.values):
         prop_ok = False
         detail["values_depend_on_labels"] = True
-    path = "cumsum" if case["op"] == "cumsum" else ("unpadded" if (case["from"], case["to"]) in
+    path = ("two-axes:" if sec else "") + "cumsum" if case["op"] == "cumsum" else ("two-axes:" if sec else "") + ("unpadded" if (case["from"], case["to"]) in
                                                     (("outer", "center"), ("center", "inner")) else "padded")
     return {"corr_ok": corr_ok, "prop_ok": prop_ok, "branch": f"{path}:{case['input']}:{'keep' if case['keep'] else 'drop'}",
             "detail": detail or None}
